@@ -1,6 +1,1785 @@
-//! C09 — stub: correspondence harness not built yet.
+//! C09 — stored documents are returned exactly as they were added.
+//!
+//! Ties `Model/Store/*.lean` to `schema/document/{se,de}.rs`, `store/{writer,reader,store_compressor}.rs`,
+//! `store/index/*` and `merger.rs::write_storable_fields`.
+//!
+//! Oracle (implementation alone): `Searcher::doc`, `StoreReader::get / iter / iter_raw /
+//! get_document_bytes`, `to_json` / `to_named_doc` return exactly the stored-flagged field values
+//! in order, for every compressor × block size × dedicated thread × cache size × access order,
+//! before and after merges (with / without deletes, several segments); nothing panics.
+//! Model correspondence: real serializer bytes decoded by the Lean codec, Lean-encoded bytes
+//! decoded by the real deserializer (and byte equality); store files (compressor none) written by
+//! the real `StoreWriter` are byte-identical to the model's and read back by the model, model-written
+//! files are read by the real `StoreReader` (this covers the skip index: its bytes and every seek);
+//! merged store files equal the model's merge; `CacheStats` equal the model's LRU.
+use crate::model::{hex, nat_list, unhex};
+use crate::rng::Rng;
 use crate::Ctx;
+use serde_json::{json, Value as J};
+use std::net::Ipv6Addr;
+use std::panic::{catch_unwind, AssertUnwindSafe};
+use std::path::Path;
+use tantivy::directory::{Directory, FileSlice, RamDirectory};
+use tantivy::index::SegmentComponent;
+use tantivy::indexer::NoMergePolicy;
+use tantivy::schema::{
+    BytesOptions, DateOptions, FacetOptions, Facet, Field, IpAddrOptions, JsonObjectOptions, NumericOptions,
+    OwnedValue, Schema, TextFieldIndexing, TextOptions, FAST, INDEXED, STORED, STRING, TEXT,
+};
+use tantivy::store::{Compressor, StoreReader, StoreWriter, ZstdCompressor};
+use tantivy::tokenizer::{PreTokenizedString, Token};
+use tantivy::{
+    DateTime, DocAddress, Document, Index, IndexSettings, IndexWriter, TantivyDocument, Term,
+};
+
+// ------------------------------------------------------------------------------------------
+// canonical text (the same grammar as Driver/C09.lean)
+// ------------------------------------------------------------------------------------------
+
+fn canon_value(v: &OwnedValue, out: &mut String) {
+    match v {
+        OwnedValue::Null => out.push('N'),
+        OwnedValue::Str(s) => {
+            out.push('S');
+            out.push_str(&hex(s.as_bytes()));
+        }
+        OwnedValue::PreTokStr(p) => {
+            out.push('T');
+            out.push_str(&hex(serde_json::to_string(p).unwrap().as_bytes()));
+        }
+        OwnedValue::U64(x) => out.push_str(&format!("U{x}")),
+        OwnedValue::I64(x) => out.push_str(&format!("I{}", *x as u64)),
+        OwnedValue::F64(x) => out.push_str(&format!("F{}", tantivy_common::f64_to_u64(*x))),
+        OwnedValue::Bool(b) => out.push_str(if *b { "B1" } else { "B0" }),
+        OwnedValue::Date(d) => out.push_str(&format!("D{}", d.into_timestamp_nanos() as u64)),
+        OwnedValue::Facet(f) => {
+            out.push('C');
+            out.push_str(&hex(f.encoded_str().as_bytes()));
+        }
+        OwnedValue::Bytes(b) => {
+            out.push('Y');
+            out.push_str(&hex(b));
+        }
+        OwnedValue::IpAddr(ip) => out.push_str(&format!("P{}", u128::from(*ip))),
+        OwnedValue::Array(vs) => {
+            out.push_str("A[");
+            for (i, v) in vs.iter().enumerate() {
+                if i > 0 {
+                    out.push(',');
+                }
+                canon_value(v, out);
+            }
+            out.push(']');
+        }
+        OwnedValue::Object(es) => {
+            out.push_str("O{");
+            for (i, (k, v)) in es.iter().enumerate() {
+                if i > 0 {
+                    out.push(',');
+                }
+                out.push_str(&hex(k.as_bytes()));
+                out.push(':');
+                canon_value(v, out);
+            }
+            out.push('}');
+        }
+    }
+}
+
+fn canon_fields(fvs: &[(Field, OwnedValue)]) -> String {
+    if fvs.is_empty() {
+        return "-".into();
+    }
+    let mut out = String::new();
+    for (i, (f, v)) in fvs.iter().enumerate() {
+        if i > 0 {
+            out.push(';');
+        }
+        out.push_str(&format!("{}=", f.field_id()));
+        canon_value(v, &mut out);
+    }
+    out
+}
+
+/// NaN-safe comparison form of a named document (field name → values in order)
+fn canon_named(n: &tantivy::schema::NamedFieldDocument) -> Vec<(String, Vec<String>)> {
+    n.0.iter()
+        .map(|(k, vs)| {
+            (
+                k.clone(),
+                vs.iter()
+                    .map(|v| {
+                        let mut s = String::new();
+                        canon_value(v, &mut s);
+                        s
+                    })
+                    .collect(),
+            )
+        })
+        .collect()
+}
+
+fn canon_doc(doc: &TantivyDocument) -> String {
+    let fvs: Vec<(Field, OwnedValue)> = doc.field_values().map(|(f, v)| (f, OwnedValue::from(v))).collect();
+    canon_fields(&fvs)
+}
+
+// ------------------------------------------------------------------------------------------
+// schema and document generation
+// ------------------------------------------------------------------------------------------
+
+#[derive(Clone, Copy, PartialEq, Debug)]
+enum Kind {
+    Text,
+    Str,
+    U64,
+    I64,
+    F64,
+    Bool,
+    Date,
+    Facet,
+    Bytes,
+    Ip,
+    JsonIndexed,
+    JsonStoredOnly,
+}
+
+struct FieldSpec {
+    field: Field,
+    kind: Kind,
+    stored: bool,
+}
+
+struct Sch {
+    schema: Schema,
+    id: Field,
+    /// random sort key (fast, not stored): sorting by it interleaves the segments in a merge
+    sk: Field,
+    fields: Vec<FieldSpec>,
+}
+
+/// constants extracted from the Rust sources (through `Gen/Store.lean` and the model driver)
+#[derive(Clone, Copy)]
+struct Consts {
+    period: usize,
+    default_bs: usize,
+    cache_cap: usize,
+    min_stack_blocks: usize,
+    footer_len: usize,
+}
+
+fn read_consts(ctx: &mut Ctx) -> Consts {
+    let r = ctx.model.ask("C09 consts");
+    let v: Vec<usize> = r.split(' ').filter_map(|t| t.parse().ok()).collect();
+    if v.len() == 6 {
+        Consts { period: v[0], default_bs: v[1], cache_cap: v[2], min_stack_blocks: v[4], footer_len: v[5] }
+    } else {
+        ctx.report.notes.push(format!("model driver did not report the constants ({r}); using the pinned values"));
+        Consts { period: 8, default_bs: 16384, cache_cap: 100, min_stack_blocks: 6, footer_len: 28 }
+    }
+}
+
+fn build_schema() -> Sch {
+    let mut sb = Schema::builder();
+    let id = sb.add_u64_field("id", INDEXED | FAST);
+    let sk = sb.add_u64_field("sk", FAST);
+    let mut fields = vec![];
+    let mut add = |field: Field, kind: Kind, stored: bool| fields.push(FieldSpec { field, kind, stored });
+    add(sb.add_text_field("title", TEXT | STORED), Kind::Text, true);
+    add(sb.add_text_field("body_ns", TEXT), Kind::Text, false);
+    add(sb.add_text_field("tag", STRING | STORED), Kind::Str, true);
+    add(sb.add_text_field("raw", TextOptions::default().set_stored()), Kind::Text, true);
+    add(sb.add_u64_field("u", NumericOptions::default().set_stored().set_fast().set_indexed()), Kind::U64, true);
+    add(sb.add_u64_field("u_ns", FAST), Kind::U64, false);
+    add(sb.add_i64_field("i", STORED), Kind::I64, true);
+    add(sb.add_f64_field("f", NumericOptions::default().set_stored().set_fast()), Kind::F64, true);
+    add(sb.add_bool_field("b", STORED | INDEXED), Kind::Bool, true);
+    add(sb.add_date_field("d", DateOptions::default().set_stored().set_indexed()), Kind::Date, true);
+    add(sb.add_facet_field("fc", FacetOptions::default().set_stored()), Kind::Facet, true);
+    add(sb.add_facet_field("fc_ns", FacetOptions::default()), Kind::Facet, false);
+    add(sb.add_bytes_field("by", BytesOptions::default().set_stored()), Kind::Bytes, true);
+    add(sb.add_bytes_field("by_ns", BytesOptions::default().set_fast()), Kind::Bytes, false);
+    add(sb.add_ip_addr_field("ip", IpAddrOptions::default().set_stored().set_indexed()), Kind::Ip, true);
+    add(
+        sb.add_json_field(
+            "js",
+            JsonObjectOptions::default().set_stored().set_indexing_options(TextFieldIndexing::default()),
+        ),
+        Kind::JsonIndexed,
+        true,
+    );
+    add(sb.add_json_field("js_so", JsonObjectOptions::default().set_stored()), Kind::JsonStoredOnly, true);
+    add(
+        sb.add_json_field("js_ns", JsonObjectOptions::default().set_indexing_options(TextFieldIndexing::default())),
+        Kind::JsonIndexed,
+        false,
+    );
+    Sch { schema: sb.build(), id, sk, fields }
+}
+
+const WORDS: &[&str] = &[
+    "alpha", "beta", "gamma", "Δέλτα", "épsilon", "ζ", "日本語", "🙂🙃", "a\u{0301}", "x", "", "tab\tsep", "q\"uote", "back\\slash",
+    "\u{0}nul", "\u{7f}", "\u{80}", "\u{7ff}", "\u{800}", "\u{ffff}", "\u{10000}", "\u{10ffff}",
+];
+
+fn gen_string(rng: &mut Rng, max_words: usize) -> String {
+    let n = rng.usize_below(max_words + 1);
+    let mut parts: Vec<&str> = vec![];
+    for _ in 0..n {
+        parts.push(*rng.pick(WORDS));
+    }
+    parts.join(" ")
+}
+
+fn gen_len_biased(rng: &mut Rng) -> usize {
+    match rng.below(12) {
+        0 => 0,
+        1 => 1,
+        2 => 127,
+        3 => 128,
+        4 => 129,
+        5 => 16383,
+        6 => 16384,
+        7 => 16385,
+        8 => 300 + rng.usize_below(3000),
+        _ => rng.usize_below(40),
+    }
+}
+
+fn gen_text(rng: &mut Rng, big: bool) -> String {
+    if big {
+        let n = gen_len_biased(rng);
+        let mut s = String::with_capacity(n + 4);
+        let alphabet: Vec<char> = "abc déf ζ日🙂\n".chars().collect();
+        while s.len() < n {
+            s.push(*rng.pick(&alphabet));
+        }
+        s
+    } else {
+        gen_string(rng, 6)
+    }
+}
+
+fn gen_u64(rng: &mut Rng) -> u64 {
+    match rng.below(8) {
+        0 => 0,
+        1 => 1,
+        2 => 127,
+        3 => 128,
+        4 => u64::MAX,
+        5 => u64::MAX - 1,
+        6 => 1 << (rng.below(64)),
+        _ => rng.next_u64(),
+    }
+}
+
+fn gen_i64(rng: &mut Rng) -> i64 {
+    match rng.below(8) {
+        0 => 0,
+        1 => -1,
+        2 => i64::MIN,
+        3 => i64::MAX,
+        4 => 1,
+        _ => rng.next_u64() as i64,
+    }
+}
+
+fn gen_f64(rng: &mut Rng) -> f64 {
+    match rng.below(12) {
+        0 => 0.0,
+        1 => -0.0,
+        2 => f64::INFINITY,
+        3 => f64::NEG_INFINITY,
+        4 => f64::NAN,
+        5 => f64::MIN_POSITIVE,
+        6 => f64::MAX,
+        7 => -1.5,
+        8 => f64::from_bits(1), // subnormal
+        _ => f64::from_bits(rng.next_u64()),
+    }
+}
+
+fn gen_date(rng: &mut Rng) -> DateTime {
+    let nanos = match rng.below(6) {
+        0 => 0,
+        1 => -1,
+        2 => 1_700_000_000_123_456_789,
+        3 => i64::MAX / 2,
+        4 => -(1i64 << 60),
+        _ => (rng.next_u64() >> 2) as i64 - (1i64 << 61),
+    };
+    DateTime::from_timestamp_nanos(nanos)
+}
+
+fn gen_facet(rng: &mut Rng) -> Facet {
+    if rng.chance(1, 12) {
+        return Facet::root();
+    }
+    let n = 1 + rng.usize_below(3);
+    let segs: Vec<String> = (0..n)
+        .map(|_| {
+            let w = *rng.pick(&["a", "b", "top", "Δ", "日本", "with/slash", "x y", "🙂"]);
+            w.to_string()
+        })
+        .collect();
+    Facet::from_path(segs)
+}
+
+fn gen_ip(rng: &mut Rng) -> Ipv6Addr {
+    match rng.below(5) {
+        0 => Ipv6Addr::from(0u128),
+        1 => Ipv6Addr::from(u128::MAX),
+        2 => std::net::Ipv4Addr::new(192, 168, 0, rng.below(256) as u8).to_ipv6_mapped(),
+        3 => Ipv6Addr::from(1u128),
+        _ => Ipv6Addr::from(((rng.next_u64() as u128) << 64) | rng.next_u64() as u128),
+    }
+}
+
+fn gen_pretok(rng: &mut Rng) -> PreTokenizedString {
+    let n = rng.usize_below(5);
+    let words: Vec<&str> = (0..n).map(|_| *rng.pick(&["alpha", "beta", "ζ", "日本語", "x"])).collect();
+    let text = words.join(" ");
+    let mut tokens = vec![];
+    let mut off = 0;
+    for (i, w) in words.iter().enumerate() {
+        tokens.push(Token { offset_from: off, offset_to: off + w.len(), position: i, text: w.to_string(), position_length: 1 });
+        off += w.len() + 1;
+    }
+    PreTokenizedString { text, tokens }
+}
+
+/// a JSON-like tree; `wild` additionally allows the leaf types only a stored-only field can hold
+fn gen_tree(rng: &mut Rng, depth: usize, wild: bool, budget: &mut usize) -> OwnedValue {
+    if *budget > 0 {
+        *budget -= 1;
+    }
+    let leaf = depth == 0 || *budget == 0 || rng.chance(2, 5);
+    if leaf {
+        let k = rng.below(if wild { 13 } else { 8 });
+        return match k {
+            0 => OwnedValue::Null,
+            1 => OwnedValue::Str(gen_string(rng, 3)),
+            2 => OwnedValue::U64(gen_u64(rng)),
+            3 => OwnedValue::I64(gen_i64(rng)),
+            4 => OwnedValue::F64(gen_f64(rng)),
+            5 => OwnedValue::Bool(rng.chance(1, 2)),
+            6 => OwnedValue::Date(gen_date(rng)),
+            7 => {
+                let big = rng.chance(1, 10);
+                OwnedValue::Str(gen_text(rng, big))
+            }
+            8 => {
+                let n = rng.usize_below(20);
+                OwnedValue::Bytes(rng.bytes(n))
+            }
+            9 => OwnedValue::IpAddr(gen_ip(rng)),
+            10 => OwnedValue::Facet(gen_facet(rng)),
+            11 => OwnedValue::PreTokStr(gen_pretok(rng)),
+            _ => OwnedValue::Bytes(vec![]),
+        };
+    }
+    let width = match rng.below(6) {
+        0 => 0,
+        1 => 1,
+        2 => 2,
+        3 => 63 + rng.usize_below(3), // object header count crosses one VInt byte (2*64 = 128)
+        4 => 127 + rng.usize_below(3),
+        _ => rng.usize_below(6),
+    }
+    .min(*budget);
+    if rng.chance(1, 2) {
+        OwnedValue::Array((0..width).map(|_| gen_tree(rng, depth - 1, wild, budget)).collect())
+    } else {
+        OwnedValue::Object(
+            (0..width)
+                .map(|i| {
+                    let key = if wild { format!("{}{}", rng.pick(WORDS), i) } else { format!("k{}{}", rng.pick(&["a", "b", "Δ", "日"]), i) };
+                    // duplicate keys are legal in the binary format (a list of pairs)
+                    let key = if rng.chance(1, 10) { "dup".to_string() } else { key };
+                    (key, gen_tree(rng, depth - 1, wild, budget))
+                })
+                .collect(),
+        )
+    }
+}
+
+/// a chain of single-element containers, `depth` deep
+fn gen_deep(rng: &mut Rng, depth: usize) -> OwnedValue {
+    let mut v = OwnedValue::U64(depth as u64);
+    for i in 0..depth {
+        v = if rng.chance(1, 2) { OwnedValue::Array(vec![v]) } else { OwnedValue::Object(vec![(format!("k{i}"), v)]) };
+    }
+    v
+}
+
+/// one very wide array or object: the element count needs 2 or 3 VInt bytes
+/// (an object writes twice its number of entries)
+fn gen_wide(rng: &mut Rng) -> OwnedValue {
+    let width = match rng.below(12) {
+        0 => 200,
+        1 => 255,
+        2 => 256,
+        3 => 257,
+        4 => 8191,
+        5 => 8192,
+        6 => 8193,
+        7 => 16384,
+        8 => 16383,
+        _ => 130 + rng.usize_below(400),
+    };
+    let leaf = |rng: &mut Rng, i: usize| match rng.below(4) {
+        0 => OwnedValue::Null,
+        1 => OwnedValue::Bool(i % 2 == 0),
+        2 => OwnedValue::U64(i as u64),
+        _ => OwnedValue::Str(format!("v{i}")),
+    };
+    if rng.chance(1, 2) {
+        OwnedValue::Array((0..width).map(|i| leaf(rng, i)).collect())
+    } else {
+        OwnedValue::Object((0..width).map(|i| (format!("k{i}"), leaf(rng, i))).collect())
+    }
+}
+
+fn gen_json_top(rng: &mut Rng, wild: bool, profile: u64) -> OwnedValue {
+    let v = match profile {
+        1 => gen_wide(rng),
+        0 => {
+            let depth = 1 + rng.usize_below(60);
+            gen_deep(rng, depth)
+        }
+        _ => {
+            let mut budget = match rng.below(4) { 0 => 3, 1 => 400, _ => 40 };
+            let depth = 1 + rng.usize_below(5);
+            gen_tree(rng, depth, wild, &mut budget)
+        }
+    };
+    match v {
+        OwnedValue::Object(_) => v,
+        other => OwnedValue::Object(vec![("root".to_string(), other)]),
+    }
+}
+
+fn gen_value(rng: &mut Rng, kind: Kind, big: bool) -> OwnedValue {
+    match kind {
+        Kind::Text => {
+            if rng.chance(1, 8) { OwnedValue::PreTokStr(gen_pretok(rng)) } else { OwnedValue::Str(gen_text(rng, big)) }
+        }
+        Kind::Str => OwnedValue::Str(gen_string(rng, 2)),
+        Kind::U64 => OwnedValue::U64(gen_u64(rng)),
+        Kind::I64 => OwnedValue::I64(gen_i64(rng)),
+        Kind::F64 => OwnedValue::F64(gen_f64(rng)),
+        Kind::Bool => OwnedValue::Bool(rng.chance(1, 2)),
+        Kind::Date => OwnedValue::Date(gen_date(rng)),
+        Kind::Facet => OwnedValue::Facet(gen_facet(rng)),
+        Kind::Bytes => {
+            let n = if big { gen_len_biased(rng) } else { rng.usize_below(12) };
+            OwnedValue::Bytes(rng.bytes(n))
+        }
+        Kind::Ip => OwnedValue::IpAddr(gen_ip(rng)),
+        Kind::JsonIndexed => {
+            let p = rng.below(6);
+            gen_json_top(rng, false, p)
+        }
+        Kind::JsonStoredOnly => {
+            let p = rng.below(6);
+            gen_json_top(rng, true, p)
+        }
+    }
+}
+
+/// what the store must return for an added value (top-level pre-tokenized text → its text)
+fn stored_of(v: &OwnedValue) -> OwnedValue {
+    match v {
+        OwnedValue::PreTokStr(p) => OwnedValue::Str(p.text.clone()),
+        other => other.clone(),
+    }
+}
+
+struct GenDoc {
+    /// every (field, value) given to `add_document`, in order (without the id field)
+    added: Vec<(Field, OwnedValue)>,
+    /// the stored view
+    expected: Vec<(Field, OwnedValue)>,
+}
+
+#[derive(Clone, Copy, PartialEq, Debug)]
+enum DocProfile {
+    Empty,
+    OnlyNonStored,
+    Small,
+    Mixed,
+    Big,
+    Huge,
+    ManyValues,
+    Json,
+}
+
+fn gen_doc(rng: &mut Rng, sch: &Sch, profile: DocProfile) -> GenDoc {
+    let mut added = vec![];
+    let stored_fields: Vec<&FieldSpec> = sch.fields.iter().filter(|f| f.stored).collect();
+    let ns_fields: Vec<&FieldSpec> = sch.fields.iter().filter(|f| !f.stored).collect();
+    match profile {
+        DocProfile::Empty => {}
+        DocProfile::OnlyNonStored => {
+            for _ in 0..1 + rng.usize_below(3) {
+                let f = *rng.pick(&ns_fields);
+                added.push((f.field, gen_value(rng, f.kind, false)));
+            }
+        }
+        DocProfile::Small => {
+            let f = *rng.pick(&stored_fields);
+            added.push((f.field, gen_value(rng, f.kind, false)));
+        }
+        DocProfile::Mixed | DocProfile::Big => {
+            let n = 1 + rng.usize_below(8);
+            for _ in 0..n {
+                let f = rng.pick(&sch.fields);
+                added.push((f.field, gen_value(rng, f.kind, profile == DocProfile::Big)));
+            }
+        }
+        DocProfile::Huge => {
+            let n = 200_000 + rng.usize_below(900_000);
+            let unit = "huge ζ日🙂 text ";
+            let text: String = unit.repeat(n / unit.len() + 1);
+            added.push((sch.fields[3].field, OwnedValue::Str(text)));
+            added.push((sch.fields[0].field, OwnedValue::Str("after huge".into())));
+        }
+        DocProfile::ManyValues => {
+            // several values per field, fields interleaved, stored and non-stored mixed
+            let f1 = *rng.pick(&stored_fields);
+            let f2 = *rng.pick(&stored_fields);
+            let f3 = *rng.pick(&ns_fields);
+            // the number of stored values of a document is a VInt: cross its one-byte range too
+            let n = match rng.below(8) {
+                0 => 126 + rng.usize_below(5),
+                1 => 300,
+                _ => 2 + rng.usize_below(12),
+            };
+            for i in 0..n {
+                let f = match i % 3 { 0 => f1, 1 => f2, _ => if rng.chance(1, 2) { f3 } else { f1 } };
+                added.push((f.field, gen_value(rng, f.kind, false)));
+            }
+        }
+        DocProfile::Json => {
+            let n = 1 + rng.usize_below(3);
+            for _ in 0..n {
+                let f = *rng.pick(&[&sch.fields[15], &sch.fields[16], &sch.fields[17]]);
+                added.push((f.field, gen_value(rng, f.kind, false)));
+            }
+        }
+    }
+    let stored = |f: Field| sch.fields.iter().any(|s| s.field == f && s.stored);
+    let expected = added.iter().filter(|(f, _)| stored(*f)).map(|(f, v)| (*f, stored_of(v))).collect();
+    GenDoc { added, expected }
+}
+
+fn pick_profile(rng: &mut Rng, allow_huge: bool) -> DocProfile {
+    match rng.below(24) {
+        0 => DocProfile::Empty,
+        1 => DocProfile::OnlyNonStored,
+        2 | 3 | 4 => DocProfile::Small,
+        5 | 6 | 7 | 8 | 9 => DocProfile::Mixed,
+        10 | 11 => DocProfile::Big,
+        12 | 13 | 14 | 15 => DocProfile::ManyValues,
+        16 | 17 | 18 | 19 => DocProfile::Json,
+        20 if allow_huge => DocProfile::Huge,
+        _ => DocProfile::Mixed,
+    }
+}
+
+fn to_tantivy_doc(fvs: &[(Field, OwnedValue)]) -> TantivyDocument {
+    let mut doc = TantivyDocument::default();
+    for (f, v) in fvs {
+        match v {
+            // exercise the typed entry points as well as `add_field_value`
+            OwnedValue::Str(s) => doc.add_text(*f, s),
+            OwnedValue::PreTokStr(p) => doc.add_pre_tokenized_text(*f, p.clone()),
+            OwnedValue::Bytes(b) => doc.add_bytes(*f, b),
+            OwnedValue::Facet(fc) => doc.add_facet(*f, fc.clone()),
+            other => doc.add_field_value(*f, other),
+        }
+    }
+    doc
+}
+
+// ------------------------------------------------------------------------------------------
+// codec cases: real serializer ↔ Lean codec
+// ------------------------------------------------------------------------------------------
+
+fn case_codec(ctx: &mut Ctx, sch: &Sch, sub: u64) {
+    let mut rng = Rng::new(sub);
+    let profile = pick_profile(&mut rng, false);
+    let gd = gen_doc(&mut rng, sch, profile);
+    let case = json!({"kind": "codec", "sub": sub.to_string()});
+    let expected = canon_fields(&gd.expected);
+    let doc = to_tantivy_doc(&gd.added);
+    ctx.report.count(&format!("codec-profile:{:?}", profile));
+    let nested = expected.contains("A[") || expected.contains("O{");
+    ctx.report.case(&format!("codec|{expected}"), nested || gd.expected.len() >= 3);
+    let bytes = match catch_unwind(AssertUnwindSafe(|| tantivy::verif::c09_serialize_doc(&doc, &sch.schema))) {
+        Ok(Ok(b)) => b,
+        Ok(Err(e)) => {
+            ctx.report.violation("oracle", "C09:serialize-error", format!("serialize_doc failed: {e}"), case);
+            return;
+        }
+        Err(_) => {
+            ctx.report.violation("oracle", "C09:serialize-panic", "serialize_doc panicked".into(), case);
+            return;
+        }
+    };
+    // oracle: the real codec round-trips to the stored view
+    match catch_unwind(AssertUnwindSafe(|| tantivy::verif::c09_deserialize_doc(&bytes))) {
+        Ok(Ok(back)) => {
+            let got = canon_doc(&back);
+            if got != expected {
+                ctx.report.violation("oracle", "C09:codec-roundtrip", format!("deserialize(serialize(doc)) differs from the stored view: got {} expected {}", clip(&got), clip(&expected)), case.clone());
+            }
+        }
+        Ok(Err(e)) => ctx.report.violation("oracle", "C09:codec-roundtrip", format!("deserialize failed on serialized doc: {e}"), case.clone()),
+        Err(_) => ctx.report.violation("oracle", "C09:codec-panic", "deserialize panicked on serialized doc".into(), case.clone()),
+    }
+    if bytes.len() > 200_000 {
+        return;
+    }
+    // model: Lean decodes the real bytes
+    let m = ctx.model.ask(&format!("C09 docdec {}", hex(&bytes)));
+    if m != expected {
+        ctx.report.violation("model", "C09:model-decode-real-bytes", format!("Lean codec on real bytes: {} expected {}", clip(&m), clip(&expected)), case.clone());
+    }
+    // model: Lean encodes, the real deserializer reads; bytes are identical
+    let menc = ctx.model.ask(&format!("C09 docenc {expected}"));
+    match unhex(&menc) {
+        Some(mb) => {
+            if mb != bytes {
+                layout_differs(ctx, "document-bytes", format!("{} vs {} bytes", mb.len(), bytes.len()));
+            }
+            match catch_unwind(AssertUnwindSafe(|| tantivy::verif::c09_deserialize_doc(&mb))) {
+                Ok(Ok(back)) => {
+                    if canon_doc(&back) != expected {
+                        ctx.report.violation("model", "C09:real-decode-model-bytes", "real deserializer on Lean-encoded bytes returns another document".into(), case.clone());
+                    }
+                }
+                _ => ctx.report.violation("model", "C09:real-decode-model-bytes", "real deserializer fails on Lean-encoded bytes".into(), case.clone()),
+            }
+        }
+        None => ctx.report.violation("model", "C09:model-encode-bytes-differ", format!("model refused canonical document: {menc}"), case.clone()),
+    }
+    if ctx.report.samples.len() < 2 && nested {
+        ctx.report.sample(json!({"kind":"codec","stored_view": clip(&expected), "bytes": bytes.len()}));
+    }
+}
+
+/// a byte-level difference of something whose layout the property does not promise (flush rule,
+/// skip-index shape, …): not a violation as long as both sides still read each other's bytes
+/// (checked separately); counted and noted so that it is visible in the evidence
+fn layout_differs(ctx: &mut Ctx, what: &str, detail: String) {
+    let key = format!("layout-differs:{what}");
+    if !ctx.report.distribution.contains_key(&key) {
+        ctx.report.notes.push(format!("{what}: real bytes differ from the model's ({detail}); cross-decoding is what decides"));
+    }
+    ctx.report.count(&key);
+}
+
+fn clip(s: &str) -> String {
+    if s.len() <= 300 {
+        s.to_string()
+    } else {
+        let mut end = 300;
+        while !s.is_char_boundary(end) {
+            end -= 1;
+        }
+        format!("{}…({} chars)", &s[..end], s.len())
+    }
+}
+
+/// very deep nesting (a chain of single-element arrays / objects) through the codec alone
+fn case_deep(ctx: &mut Ctx, sch: &Sch, depth: usize) {
+    let mut rng = ctx.rng.fork();
+    let case = json!({"kind": "deep", "sub": depth.to_string()});
+    let field = sch.fields[16].field; // stored-only json
+    let v = OwnedValue::Object(vec![("deep".to_string(), gen_deep(&mut rng, depth))]);
+    let expected = canon_fields(&[(field, v.clone())]);
+    let mut doc = TantivyDocument::default();
+    doc.add_field_value(field, &v);
+    ctx.report.case(&format!("deep|{depth}|{}", expected.len()), true);
+    ctx.report.count("codec-deep-nesting");
+    let res = catch_unwind(AssertUnwindSafe(|| -> Result<(Vec<u8>, String), String> {
+        let bytes = tantivy::verif::c09_serialize_doc(&doc, &sch.schema).map_err(|e| e.to_string())?;
+        let back = tantivy::verif::c09_deserialize_doc(&bytes).map_err(|e| e.to_string())?;
+        Ok((bytes, canon_doc(&back)))
+    }));
+    match res {
+        Ok(Ok((bytes, got))) => {
+            if got != expected {
+                ctx.report.violation("oracle", "C09:codec-roundtrip", format!("nesting depth {depth}: round trip differs"), case.clone());
+            }
+            let m = ctx.model.ask(&format!("C09 docdec {}", hex(&bytes)));
+            if m != expected {
+                ctx.report.violation("model", "C09:model-decode-real-bytes", format!("nesting depth {depth}: Lean codec disagrees"), case);
+            }
+        }
+        Ok(Err(e)) => ctx.report.violation("oracle", "C09:codec-roundtrip", format!("nesting depth {depth}: {e}"), case),
+        Err(_) => ctx.report.violation("oracle", "C09:codec-panic", format!("nesting depth {depth}: panic"), case),
+    }
+}
+
+fn case_vint(ctx: &mut Ctx) {
+    use tantivy_common::{BinarySerializable, VInt};
+    let mut vals: Vec<u64> = vec![0, 1, 127, 128, 129, 16383, 16384, u32::MAX as u64, 1 << 32, 1 << 35, (1 << 35) - 1, u64::MAX, u64::MAX - 1];
+    for k in 1..10 {
+        vals.extend([(1u64 << (7 * k)) - 1, 1u64 << (7 * k), (1u64 << (7 * k)) + 1]);
+    }
+    for _ in 0..40 {
+        vals.push(ctx.rng.next_u64() >> ctx.rng.below(64));
+    }
+    for v in vals {
+        let mut buf = vec![];
+        VInt(v).serialize(&mut buf).unwrap();
+        let m = ctx.model.ask(&format!("C09 vintenc {v}"));
+        ctx.report.case(&format!("vint|{v}"), v >= 128);
+        if m != hex(&buf) {
+            ctx.report.violation("model", "C09:vint-bytes", format!("VInt({v}) real {} model {m}", hex(&buf)), json!({"kind":"vint","v":v.to_string()}));
+        }
+        buf.extend([0xaa, 0x05]);
+        let md = ctx.model.ask(&format!("C09 vintdec {}", hex(&buf)));
+        let mut slice = &buf[..];
+        let rd = VInt::deserialize(&mut slice).map(|x| x.0);
+        if rd.as_ref().ok() != Some(&v) || md != format!("{v}:aa05") {
+            ctx.report.violation("model", "C09:vint-bytes", format!("VInt decode of {v}: real {:?} model {md}", rd.ok()), json!({"kind":"vint","v":v.to_string()}));
+        }
+    }
+}
+
+// ------------------------------------------------------------------------------------------
+// store cases: StoreWriter / StoreReader directly, arbitrary document bytes
+// ------------------------------------------------------------------------------------------
+
+fn compressor_name(c: &Compressor) -> &'static str {
+    match c {
+        Compressor::None => "none",
+        Compressor::Lz4 => "lz4",
+        Compressor::Zstd(_) => "zstd",
+    }
+}
+
+fn pick_compressor(rng: &mut Rng) -> Compressor {
+    match rng.below(5) {
+        0 | 1 => Compressor::None,
+        2 => Compressor::Lz4,
+        3 => Compressor::Zstd(ZstdCompressor::default()),
+        _ => Compressor::Zstd(ZstdCompressor { compression_level: Some(1 + rng.below(6) as i32) }),
+    }
+}
+
+fn pick_blocksize(rng: &mut Rng, default_bs: usize) -> usize {
+    match rng.below(10) {
+        0 => 0,
+        1 => 1,
+        2 => 9,
+        3 => 16,
+        4 => 17,
+        5 => 64 + rng.usize_below(200),
+        6 => 1000 + rng.usize_below(3000),
+        7 => default_bs,
+        8 => default_bs + 1,
+        _ => 20 + rng.usize_below(40),
+    }
+}
+
+fn write_real_store(docs: &[Vec<u8>], comp: Compressor, bs: usize, thread: bool) -> std::io::Result<Vec<u8>> {
+    let dir = RamDirectory::create();
+    let path = Path::new("store");
+    let w = dir.open_write(path).map_err(|e| std::io::Error::other(format!("{e:?}")))?;
+    let mut sw = StoreWriter::new(w, comp, bs, thread)?;
+    for d in docs {
+        sw.store_bytes(d)?;
+    }
+    sw.close()?;
+    let data = dir.open_read(path).map_err(|e| std::io::Error::other(format!("{e:?}")))?.read_bytes()?;
+    Ok(data.as_slice().to_vec())
+}
+
+fn open_real(file: &[u8], cache: usize) -> std::io::Result<StoreReader> {
+    StoreReader::open(FileSlice::from(file.to_vec()), cache)
+}
+
+fn real_get_bytes(r: &StoreReader, doc: u32) -> Result<Vec<u8>, String> {
+    match catch_unwind(AssertUnwindSafe(|| r.get_document_bytes(doc))) {
+        Ok(Ok(b)) => Ok(b.as_slice().to_vec()),
+        Ok(Err(e)) => Err(format!("err:{}", short_err(&e.to_string()))),
+        Err(_) => Err("panic".into()),
+    }
+}
+
+fn short_err(s: &str) -> String {
+    s.chars().take(60).collect()
+}
+
+fn gen_doc_sizes(rng: &mut Rng, n: usize, bs: usize) -> Vec<usize> {
+    let profile = rng.below(5);
+    (0..n)
+        .map(|_| match profile {
+            0 => 1,
+            1 => 1 + rng.usize_below(4),
+            2 => match rng.below(8) { 0 => bs + 1, 1 => bs.saturating_sub(8).max(1), 2 => 2 * bs + 3, _ => 1 + rng.usize_below(12) },
+            3 => 1 + rng.usize_below(bs.max(1)),
+            _ => match rng.below(10) { 0 => 1 + rng.usize_below(5000), _ => 1 + rng.usize_below(30) },
+        })
+        .collect()
+}
+
+fn boundary_count(rng: &mut Rng, period: usize, thorough: bool) -> usize {
+    let p = period;
+    let mut cands = vec![1, 2, p - 1, p, p + 1, 2 * p, p * p - 1, p * p, p * p + 1, p * p + p, 3, 20, 100];
+    if rng.chance(1, 3) || thorough {
+        cands.extend([p * p * p - 1, p * p * p, p * p * p + 1, p * p * p + p * p + p + 1]);
+    }
+    if thorough && rng.chance(1, 6) {
+        cands.extend([p * p * p * p, p * p * p * p + 1]);
+    }
+    *rng.pick(&cands)
+}
+
+fn case_store(ctx: &mut Ctx, k: Consts, sub: u64) {
+    let mut rng = Rng::new(sub);
+    let case = json!({"kind": "store", "sub": sub.to_string()});
+    let comp = pick_compressor(&mut rng);
+    let bs = pick_blocksize(&mut rng, k.default_bs);
+    let thread = rng.chance(1, 2);
+    let n = boundary_count(&mut rng, k.period, ctx.thorough());
+    // keep the total volume bounded: many documents → small documents
+    let sizes = if n > 600 || (bs > 4000 && n > 100) { vec![1 + rng.usize_below(3); n] } else { gen_doc_sizes(&mut rng, n, bs.min(3000)) };
+    let docs: Vec<Vec<u8>> = sizes
+        .iter()
+        .enumerate()
+        .map(|(i, &len)| {
+            // unique content so that a wrong block or offset cannot go unnoticed
+            let mut d = (i as u32).to_le_bytes().to_vec();
+            d.extend(rng.bytes(len.saturating_sub(4)));
+            d.truncate(len.max(1));
+            if len < 4 { d = vec![(i % 251) as u8 + 1; len.max(1)]; }
+            d
+        })
+        .collect();
+    ctx.report.count(&format!("store-compressor:{}", compressor_name(&comp)));
+    ctx.report.count(&format!("store-thread:{thread}"));
+    let file = match catch_unwind(AssertUnwindSafe(|| write_real_store(&docs, comp, bs, thread))) {
+        Ok(Ok(f)) => f,
+        Ok(Err(e)) => {
+            ctx.report.violation("oracle", "C09:store-write-error", format!("StoreWriter failed: {e}"), case);
+            return;
+        }
+        Err(_) => {
+            ctx.report.violation("oracle", "C09:store-write-panic", "StoreWriter panicked".into(), case);
+            return;
+        }
+    };
+    let cache = *rng.pick(&[0usize, 1, 2, 3, k.cache_cap]);
+    let reader = match open_real(&file, cache) {
+        Ok(r) => r,
+        Err(e) => {
+            ctx.report.violation("oracle", "C09:store-open-error", format!("StoreReader::open failed: {e}"), case);
+            return;
+        }
+    };
+    let cps = tantivy::verif::c09_block_checkpoints(&reader);
+    let layers = { let mut l = 0; let mut m = cps.len(); while m > 0 { l += 1; m /= k.period; } l };
+    ctx.report.count(&format!("store-blocks:{}", bucket(cps.len())));
+    ctx.report.count(&format!("store-skip-layers:{layers}"));
+    if docs.iter().any(|d| d.len() > bs) {
+        ctx.report.count("store-doc-larger-than-block");
+    }
+    ctx.report.case(&format!("store|{}|{bs}|{thread}|{:?}", compressor_name(&comp), sizes), cps.len() >= 2);
+    // oracle: every document reads back, in every access order; beyond the end is an error
+    let mut order: Vec<u32> = (0..n as u32).collect();
+    match rng.below(4) {
+        0 => {}
+        1 => order.reverse(),
+        2 => rng.shuffle(&mut order),
+        _ => {
+            let extra: Vec<u32> = (0..n.min(200)).map(|_| rng.below(n as u64) as u32).collect();
+            order = extra.iter().flat_map(|&d| [d, d, (d + 1) % n as u32]).collect();
+            order.extend(0..n as u32);
+        }
+    }
+    if order.len() > 3000 {
+        // all block boundaries plus a sample
+        let mut o: Vec<u32> = cps.iter().flat_map(|c| [c.0, c.1 - 1]).collect();
+        o.extend((0..600).map(|_| rng.below(n as u64) as u32));
+        rng.shuffle(&mut o);
+        order = o;
+    }
+    for &d in &order {
+        match real_get_bytes(&reader, d) {
+            Ok(b) if b == docs[d as usize] => {}
+            other => {
+                ctx.report.violation("oracle", "C09:store-get-differs", format!("get_document_bytes({d}) of {n} docs, block size {bs}, {}: {:?} expected {} bytes", compressor_name(&comp), other.map(|b| b.len()), docs[d as usize].len()), case.clone());
+                return;
+            }
+        }
+    }
+    for d in [n as u32, n as u32 + 1, u32::MAX] {
+        match real_get_bytes(&reader, d) {
+            Err(e) if e != "panic" => {}
+            other => {
+                ctx.report.violation("oracle", "C09:store-get-past-end", format!("get_document_bytes({d}) beyond {n} docs: {:?}", other.map(|b| b.len())), case.clone());
+                return;
+            }
+        }
+    }
+    // iteration: live documents in doc-id order
+    let raw: Vec<_> = match catch_unwind(AssertUnwindSafe(|| tantivy::verif::c09_iter_raw(&reader, None))) {
+        Ok(v) => v,
+        Err(_) => {
+            ctx.report.violation("oracle", "C09:iter-panic", "iter_raw panicked".into(), case);
+            return;
+        }
+    };
+    let raw_ok: Vec<Vec<u8>> = raw.into_iter().filter_map(|r| r.ok()).collect();
+    if raw_ok != docs {
+        ctx.report.violation("oracle", "C09:iter-differs", format!("iter_raw yields {} items, expected the {} documents in order", raw_ok.len(), docs.len()), case.clone());
+        return;
+    }
+    // iteration with deletes: exactly the live documents, in order (also against the model)
+    {
+        let pattern = rng.below(5);
+        let alive: Vec<bool> = (0..n)
+            .map(|i| match pattern {
+                0 => i % 2 == 0,
+                1 => i != 0 && i + 1 != n,
+                2 => !cps.iter().any(|c| c.0 as usize == i), // first document of every block deleted
+                3 => rng.chance(1, 10),
+                _ => rng.chance(3, 4),
+            })
+            .collect();
+        let mut bitset = tantivy_common::BitSet::with_max_value(n as u32);
+        for (i, a) in alive.iter().enumerate() {
+            if *a {
+                bitset.insert(i as u32);
+            }
+        }
+        let mut buf = vec![];
+        tantivy::fastfield::write_alive_bitset(&bitset, &mut buf).unwrap();
+        let ab = tantivy::fastfield::AliveBitSet::open(tantivy::directory::OwnedBytes::new(buf));
+        let got: Vec<Vec<u8>> = match catch_unwind(AssertUnwindSafe(|| tantivy::verif::c09_iter_raw(&reader, Some(&ab)))) {
+            Ok(v) => v.into_iter().filter_map(|r| r.ok()).collect(),
+            Err(_) => {
+                ctx.report.violation("oracle", "C09:iter-panic", "iter_raw with deletes panicked".into(), case);
+                return;
+            }
+        };
+        let want: Vec<Vec<u8>> = docs.iter().zip(alive.iter()).filter(|(_, a)| **a).map(|(d, _)| d.clone()).collect();
+        if got != want {
+            ctx.report.violation("oracle", "C09:iter-differs", format!("iter_raw with {} of {} documents deleted yields {} items, expected the {} live documents in order", n - want.len(), n, got.len(), want.len()), case.clone());
+            return;
+        }
+        ctx.report.count("store-iter-with-deletes");
+        if matches!(comp, Compressor::None) && file.len() <= 100_000 {
+            let bits: String = alive.iter().map(|a| if *a { '1' } else { '0' }).collect();
+            let mi = ctx.model.ask(&format!("C09 iter {} {}", hex(&file), bits));
+            let want_hex: Vec<String> = want.iter().map(|d| hex(d)).collect();
+            let want_hex = if want_hex.is_empty() { "-".to_string() } else { want_hex.join(",") };
+            if mi != want_hex {
+                ctx.report.violation("model", "C09:model-iter-real-file", "model iterRaw on the real store file differs from the live documents".into(), case.clone());
+            }
+        }
+    }
+    // cache statistics against the model's LRU (block start offsets as keys)
+    {
+        let r2 = open_real(&file, cache).unwrap();
+        let seq: Vec<u32> = order.iter().take(400).cloned().collect();
+        let mut keys = vec![];
+        for &d in &seq {
+            let _ = real_get_bytes(&r2, d);
+            keys.push(cps.iter().find(|c| c.0 <= d && d < c.1).map(|c| c.2).unwrap_or(0));
+        }
+        let (h, m, e) = tantivy::verif::c09_cache_stats(&r2);
+        let ms = ctx.model.ask(&format!("C09 cachesim {cache} {}", nat_list(&keys)));
+        if ms != format!("{h}/{m}/{e}") {
+            ctx.report.violation("model", "C09:cache-stats", format!("CacheStats hits/misses/entries real {h}/{m}/{e} model {ms} (capacity {cache}, {} accesses)", seq.len()), case.clone());
+        }
+        ctx.report.count(&format!("cache-capacity:{cache}"));
+    }
+    // the skip index of the real file (any compressor): builder bytes and seek answers
+    if file.len() >= k.footer_len && k.footer_len == 28 && cps.len() <= 5000 {
+        let foot = &file[file.len() - 28..];
+        let offset = u64::from_le_bytes(foot[4..12].try_into().unwrap()) as usize;
+        if offset <= file.len() - 28 {
+            let skip = &file[offset..file.len() - 28];
+            let dls: Vec<u32> = cps.iter().map(|c| c.1 - c.0).collect();
+            let bls: Vec<usize> = cps.iter().map(|c| c.3 - c.2).collect();
+            let ms = ctx.model.ask(&format!("C09 skipser {} {} {}", k.period, nat_list(&dls), nat_list(&bls)));
+            if ms != hex(skip) {
+                layout_differs(ctx, "skip-index", format!("{} checkpoints, {} bytes", cps.len(), skip.len()));
+            }
+            let mut targets: Vec<u32> = cps.iter().flat_map(|c| [c.0, c.1 - 1]).collect();
+            targets.extend([n as u32, n as u32 + 7]);
+            targets.truncate(600);
+            let want: Vec<String> = targets
+                .iter()
+                .map(|&t| cps.iter().find(|c| c.1 > t).map(|c| format!("{}-{}-{}-{}", c.0, c.1, c.2, c.3)).unwrap_or("none".into()))
+                .collect();
+            let mk = ctx.model.ask(&format!("C09 skipseek {} {}", hex(skip), nat_list(&targets)));
+            if mk != want.join(",") {
+                ctx.report.violation("model", "C09:skip-index-seek", format!("model seek on the real skip index bytes ({} checkpoints) differs from the checkpoint containing the target", cps.len()), case.clone());
+            }
+            ctx.report.count("store-skip-index-compared");
+        }
+    }
+    // model correspondence on whole files (compressor none)
+    let total: usize = file.len();
+    if matches!(comp, Compressor::None) && total <= 300_000 {
+        let docs_hex: Vec<String> = docs.iter().map(|d| hex(d)).collect();
+        let mfile = ctx.model.ask(&format!("C09 write {bs} {}", docs_hex.join(",")));
+        if mfile != hex(&file) {
+            layout_differs(ctx, "store-file", format!("{} bytes, {} blocks, block size {bs}", file.len(), cps.len()));
+        }
+        // the model reads the real file (seek through every layer, block decode, offsets)
+        let mut probe: Vec<u32> = order.iter().take(300).cloned().collect();
+        probe.extend([n as u32, n as u32 + 1]);
+        let mg = ctx.model.ask(&format!("C09 get {} {}", hex(&file), nat_list(&probe)));
+        let expect: Vec<String> = probe.iter().map(|&d| if (d as usize) < n { hex(&docs[d as usize]) } else { "err".into() }).collect();
+        if mg != expect.join(",") {
+            ctx.report.violation("model", "C09:model-get-real-file", format!("model reader on the real store file disagrees ({} docs, {} blocks)", n, cps.len()), case.clone());
+        }
+        // the real reader reads the model's file
+        if let Some(mb) = unhex(&mfile) {
+            match open_real(&mb, cache) {
+                Ok(r3) => {
+                    for &d in probe.iter().take(200) {
+                        let got = real_get_bytes(&r3, d);
+                        let ok = if (d as usize) < n { got.as_ref().ok() == Some(&docs[d as usize]) } else { matches!(&got, Err(e) if e != "panic") };
+                        if !ok {
+                            ctx.report.violation("model", "C09:real-get-model-file", format!("real reader on the model-written file: doc {d} wrong"), case.clone());
+                            break;
+                        }
+                    }
+                }
+                Err(e) => ctx.report.violation("model", "C09:real-get-model-file", format!("real reader cannot open the model-written file: {e}"), case.clone()),
+            }
+        }
+        // skip index bytes and checkpoints, as the model sees them in the real file
+        let mc = ctx.model.ask(&format!("C09 filecps {}", hex(&file)));
+        let rc: Vec<String> = cps.iter().map(|c| format!("{}-{}-{}-{}", c.0, c.1, c.2, c.3)).collect();
+        let rc = if rc.is_empty() { "-".to_string() } else { rc.join(",") };
+        if mc != rc {
+            ctx.report.violation("model", "C09:checkpoints", "checkpoints decoded by the model differ from block_checkpoints()".into(), case.clone());
+        }
+        ctx.report.count("store-model-whole-file");
+    }
+    if ctx.report.samples.len() < 4 && cps.len() > 8 {
+        ctx.report.sample(json!({"kind":"store","docs":n,"block_size":bs,"compressor":compressor_name(&comp),"dedicated_thread":thread,"blocks":cps.len(),"skip_layers":layers,"cache":cache}));
+    }
+}
+
+fn bucket(n: usize) -> &'static str {
+    match n {
+        0 => "0",
+        1 => "1",
+        2..=7 => "2-7",
+        8 => "8",
+        9..=63 => "9-63",
+        64 => "64",
+        65..=511 => "65-511",
+        512 => "512",
+        _ => ">512",
+    }
+}
+
+/// behaviour on a store without any document (not reachable through an index: every segment
+/// has at least one document); recorded as a note, the model predicts the bogus checkpoint
+fn probe_empty_store(ctx: &mut Ctx) {
+    for comp in [Compressor::None, Compressor::Lz4] {
+        let res = catch_unwind(AssertUnwindSafe(|| {
+            let file = write_real_store(&[], comp, 100, false).unwrap();
+            let r = open_real(&file, 1).unwrap();
+            r.get_document_bytes(0).map(|b| b.len()).map_err(|e| short_err(&e.to_string()))
+        }));
+        let what = match res {
+            Ok(Ok(n)) => format!("returns {n} bytes"),
+            Ok(Err(e)) => format!("error: {e}"),
+            Err(_) => "panics".to_string(),
+        };
+        ctx.report.notes.push(format!("empty store ({}): get_document_bytes(0) {what} (SkipIndex::seek on an index without layers returns the initial checkpoint 0..1 / 0..0, see C09_skip_index_seek_empty_store)", compressor_name(&comp)));
+    }
+}
+
+/// A doc store in the previous format (`DocStoreVersion::V1`: dates as microseconds), as written
+/// by tantivy ≤ 0.21 and still readable (`INDEX_FORMAT_OLDEST_SUPPORTED_VERSION`). Built here from a
+/// current store by setting the version field of its footer to 1; the date bytes of the document
+/// are then microseconds by definition of the format. Merging must not change what is returned.
+fn case_v1_store(ctx: &mut Ctx, sch: &Sch, sub: u64) {
+    use crate::dirs::VDir;
+    let mut rng = Rng::new(sub);
+    let case = json!({"kind": "v1", "sub": sub.to_string()});
+    let date_field = sch.fields.iter().find(|f| f.kind == Kind::Date && f.stored).unwrap().field;
+    let title = sch.fields[0].field;
+    let with_deletes = rng.chance(1, 2);
+    let many = rng.chance(1, 2); // enough blocks for the stacking path
+    let bs = if many { 1 } else { 16384 };
+    let mut doc0_bytes: Vec<u8> = vec![];
+    let res = catch_unwind(AssertUnwindSafe(|| -> tantivy::Result<Option<(String, String, String, String, String)>> {
+        let vdir = VDir::new();
+        let settings = IndexSettings { docstore_compression: Compressor::None, docstore_blocksize: bs, ..Default::default() };
+        let index = Index::create(vdir.clone(), sch.schema.clone(), settings)?;
+        let mut w: IndexWriter = index.writer_with_num_threads(1, 30_000_000)?;
+        w.set_merge_policy(Box::new(NoMergePolicy));
+        let n = if many { 12 } else { 3 };
+        // the raw i64 on disk; as microseconds it is a date in 2023
+        let raw: i64 = 1_700_000_000_000_000 + rng.below(1_000_000) as i64;
+        for i in 0..n {
+            let mut doc = TantivyDocument::default();
+            doc.add_text(title, format!("doc {i}"));
+            doc.add_date(date_field, DateTime::from_timestamp_nanos(raw + i as i64));
+            // other values must come back unchanged; a nested date is re-read like a top-level one
+            doc.add_field_value(sch.fields[16].field, &OwnedValue::Object(vec![
+                ("when".to_string(), OwnedValue::Array(vec![OwnedValue::Date(DateTime::from_timestamp_nanos(raw / 3)), OwnedValue::I64(-5)])),
+                ("s".to_string(), OwnedValue::Str(gen_string(&mut rng, 3))),
+            ]));
+            doc.add_field_value(sch.fields[4].field, &OwnedValue::U64(gen_u64(&mut rng)));
+            if i == 0 {
+                doc0_bytes = tantivy::verif::c09_serialize_doc(&doc, &sch.schema)?;
+            }
+            doc.add_u64(sch.id, i as u64);
+            doc.add_u64(sch.sk, 7);
+            w.add_document(doc)?;
+        }
+        w.commit()?;
+        // rewrite the store footer of the only segment: version 2 -> 1
+        let meta = index.searchable_segment_metas()?.remove(0);
+        let path = meta.relative_path(SegmentComponent::Store);
+        let mut file = vdir.raw(&path).expect("store file");
+        let t = file.len() - 8;
+        let flen = u32::from_le_bytes(file[t..t + 4].try_into().unwrap()) as usize;
+        let body_len = file.len() - 8 - flen;
+        let at = body_len - 28;
+        if u32::from_le_bytes(file[at..at + 4].try_into().unwrap()) != 2 {
+            return Ok(None);
+        }
+        file[at..at + 4].copy_from_slice(&1u32.to_le_bytes());
+        vdir.overwrite_raw(&path, &file);
+        if with_deletes {
+            w.delete_term(Term::from_field_u64(sch.id, 1));
+            w.commit()?;
+        }
+        let read_doc0 = |index: &Index| -> tantivy::Result<(String, String)> {
+            let reader = index.reader()?;
+            let searcher = reader.searcher();
+            let seg = &searcher.segment_readers()[0];
+            let ids = seg.fast_fields().u64("id")?;
+            let d = (0..seg.max_doc()).find(|d| ids.first(*d) == Some(0)).unwrap();
+            let doc: TantivyDocument = searcher.doc(DocAddress::new(0, d))?;
+            Ok((doc.to_json(&sch.schema), canon_doc(&doc)))
+        };
+        let (before, before_canon) = read_doc0(&index)?;
+        let ids = index.searchable_segment_ids()?;
+        w.merge(&ids).wait()?;
+        let (after, after_canon) = read_doc0(&index)?;
+        let expected = DateTime::from_timestamp_micros(raw);
+        Ok(Some((before, after, format!("{:?}", expected), before_canon, after_canon)))
+    }));
+    ctx.report.case(&format!("v1|{sub}"), true);
+    ctx.report.count(if many && !with_deletes { "v1-store:stacking-path" } else { "v1-store:copy-path" });
+    match res {
+        Ok(Ok(Some((before, after, expected, before_canon, after_canon)))) => {
+            // the model reads the same document bytes under version 1 and under the current version
+            let m1 = ctx.model.ask(&format!("C09 docdecv 1 {}", hex(&doc0_bytes)));
+            let m2 = ctx.model.ask(&format!("C09 docdecv 2 {}", hex(&doc0_bytes)));
+            if m1 != before_canon {
+                ctx.report.violation("model", "C09:model-decode-v1", format!("version-1 store: real {} model {}", clip(&before_canon), clip(&m1)), case.clone());
+            }
+            if before != after && !(m1 == before_canon && m2 == after_canon) {
+                // not the version mismatch the known finding names: report under its own key
+                ctx.report.violation("oracle", "C09:v1-merge-other", format!("version-1 doc store: document before the merge {before}, after {after}; not explained by decoding the same bytes under version 2 ({})", clip(&m2)), case);
+            } else if before != after {
+                ctx.report.violation("oracle", "C09:merge-v1-docstore-date", format!("segment with a version-1 doc store (dates in microseconds): document before the merge {before}, after the merge {after} (date added: {expected}); the raw bytes are copied into a version-2 store without re-encoding"), case);
+            }
+        }
+        Ok(Ok(None)) => ctx.report.notes.push("v1 case: footer layout not recognised, skipped".into()),
+        Ok(Err(e)) => ctx.report.violation("oracle", "C09:v1-store-error", format!("reading / merging a version-1 doc store failed: {e}"), case),
+        Err(_) => ctx.report.violation("oracle", "C09:v1-store-panic", "reading / merging a version-1 doc store panicked".into(), case),
+    }
+}
+
+/// stacking of whole stores through the public `StoreWriter::stack`
+fn case_stack(ctx: &mut Ctx, sub: u64) {
+    let mut rng = Rng::new(sub);
+    let case = json!({"kind": "stack", "sub": sub.to_string()});
+    let comp = pick_compressor(&mut rng);
+    let bs = pick_blocksize(&mut rng, 16384).min(2000);
+    let res = catch_unwind(AssertUnwindSafe(|| -> std::io::Result<(Vec<Vec<u8>>, Vec<u8>)> {
+        let dir = RamDirectory::create();
+        let w = dir.open_write(Path::new("out")).map_err(|e| std::io::Error::other(format!("{e:?}")))?;
+        let mut sw = StoreWriter::new(w, comp, bs, rng.chance(1, 2))?;
+        let mut all: Vec<Vec<u8>> = vec![];
+        let mut counter = 0u32;
+        let mut mk = |rng: &mut Rng, all: &mut Vec<Vec<u8>>| {
+            counter += 1;
+            let mut d = counter.to_le_bytes().to_vec();
+            let extra = rng.usize_below(40);
+            d.extend(rng.bytes(extra));
+            all.push(d.clone());
+            d
+        };
+        for _ in 0..1 + rng.usize_below(4) {
+            for _ in 0..rng.usize_below(12) {
+                let d = mk(&mut rng, &mut all);
+                sw.store_bytes(&d)?;
+            }
+            let nsrc = *rng.pick(&[1usize, 7, 8, 9, 30, 64, 65, 100]);
+            let src_docs: Vec<Vec<u8>> = (0..nsrc).map(|_| mk(&mut rng, &mut all)).collect();
+            let src_bs = *rng.pick(&[0usize, 16, 50, 200]);
+            let src = write_real_store(&src_docs, comp, src_bs, false)?;
+            sw.stack(open_real(&src, 1)?)?;
+        }
+        for _ in 0..rng.usize_below(5) {
+            let d = mk(&mut rng, &mut all);
+            sw.store_bytes(&d)?;
+        }
+        sw.close()?;
+        let data = dir.open_read(Path::new("out")).map_err(|e| std::io::Error::other(format!("{e:?}")))?.read_bytes()?;
+        Ok((all, data.as_slice().to_vec()))
+    }));
+    let (all, file) = match res {
+        Ok(Ok(x)) => x,
+        Ok(Err(e)) => {
+            ctx.report.violation("oracle", "C09:stack-error", format!("StoreWriter::stack failed: {e}"), case);
+            return;
+        }
+        Err(_) => {
+            ctx.report.violation("oracle", "C09:stack-panic", "StoreWriter::stack panicked".into(), case);
+            return;
+        }
+    };
+    ctx.report.case(&format!("stack|{sub}"), true);
+    ctx.report.count(&format!("stack-compressor:{}", compressor_name(&comp)));
+    let cache = *rng.pick(&[0usize, 1, 5]);
+    let reader = open_real(&file, cache).unwrap();
+    let mut order: Vec<u32> = (0..all.len() as u32).collect();
+    rng.shuffle(&mut order);
+    for &d in &order {
+        match real_get_bytes(&reader, d) {
+            Ok(b) if b == all[d as usize] => {}
+            other => {
+                ctx.report.violation("oracle", "C09:stack-get-differs", format!("after stacking, get_document_bytes({d}) = {:?}, expected {} bytes", other.map(|b| b.len()), all[d as usize].len()), case.clone());
+                return;
+            }
+        }
+    }
+    let raw_ok: Vec<Vec<u8>> = tantivy::verif::c09_iter_raw(&reader, None).into_iter().filter_map(|r| r.ok()).collect();
+    if raw_ok != all {
+        ctx.report.violation("oracle", "C09:stack-iter-differs", "after stacking, iter_raw does not yield the documents in order".into(), case.clone());
+    }
+    if matches!(comp, Compressor::None) && file.len() < 200_000 {
+        let probe: Vec<u32> = order.iter().take(200).cloned().collect();
+        let mg = ctx.model.ask(&format!("C09 get {} {}", hex(&file), nat_list(&probe)));
+        let expect: Vec<String> = probe.iter().map(|&d| hex(&all[d as usize])).collect();
+        if mg != expect.join(",") {
+            ctx.report.violation("model", "C09:model-get-real-file", "model reader on a stacked store file disagrees".into(), case.clone());
+        }
+    }
+}
+
+// ------------------------------------------------------------------------------------------
+// index cases: the whole path, segments, deletes, merges
+// ------------------------------------------------------------------------------------------
+
+struct Expect {
+    /// per document id (the `id` fast field): canonical stored view and the expected stored doc
+    canon: Vec<String>,
+    docs: Vec<Vec<(Field, OwnedValue)>>,
+}
+
+struct Settings {
+    comp: Compressor,
+    bs: usize,
+    thread: bool,
+}
+
+fn check_searcher(ctx: &mut Ctx, rng: &mut Rng, index: &Index, sch: &Sch, exp: &Expect, deleted: &[bool], stage: &str, case: &J) -> bool {
+    let reader = match index.reader() {
+        Ok(r) => r,
+        Err(e) => {
+            ctx.report.violation("oracle", "C09:open-reader", format!("{stage}: index.reader() failed: {e}"), case.clone());
+            return false;
+        }
+    };
+    let searcher = reader.searcher();
+    let mut seen = vec![false; exp.canon.len()];
+    for (ord, seg) in searcher.segment_readers().iter().enumerate() {
+        let ids = match seg.fast_fields().u64("id") {
+            Ok(c) => c,
+            Err(e) => {
+                ctx.report.violation("oracle", "C09:id-column", format!("{stage}: {e}"), case.clone());
+                return false;
+            }
+        };
+        let max_doc = seg.max_doc();
+        let alive: Vec<bool> = (0..max_doc).map(|d| seg.alive_bitset().map(|b| b.is_alive(d)).unwrap_or(true)).collect();
+        let id_of: Vec<usize> = (0..max_doc).map(|d| ids.first(d).unwrap_or(u64::MAX) as usize).collect();
+        for d in 0..max_doc {
+            if alive[d as usize] {
+                let id = id_of[d as usize];
+                if id >= seen.len() || seen[id] || deleted[id] {
+                    ctx.report.violation("oracle", "C09:live-set", format!("{stage}: unexpected live document id {id}"), case.clone());
+                    return false;
+                }
+                seen[id] = true;
+            }
+        }
+        // 1. Searcher::doc for every live document (default cache)
+        let mut order: Vec<u32> = (0..max_doc).filter(|d| alive[*d as usize]).collect();
+        rng.shuffle(&mut order);
+        for &d in order.iter().take(400) {
+            let id = id_of[d as usize];
+            let got = catch_unwind(AssertUnwindSafe(|| searcher.doc::<TantivyDocument>(DocAddress::new(ord as u32, d))));
+            match got {
+                Ok(Ok(doc)) => {
+                    let c = canon_doc(&doc);
+                    if c != exp.canon[id] {
+                        ctx.report.violation("oracle", "C09:doc-differs", format!("{stage}: Searcher::doc(seg {ord}, doc {d}) = {} but the stored fields added were {}", clip(&c), clip(&exp.canon[id])), case.clone());
+                        return false;
+                    }
+                    // JSON / named-document views of the returned document
+                    if rng.chance(1, 4) {
+                        let want = to_tantivy_doc(&exp.docs[id]);
+                        let (a, b) = (doc.to_json(&sch.schema), want.to_json(&sch.schema));
+                        if a != b || canon_named(&doc.to_named_doc(&sch.schema)) != canon_named(&want.to_named_doc(&sch.schema)) {
+                            ctx.report.violation("oracle", "C09:to-json-differs", format!("{stage}: to_json of the returned document differs: {} vs {}", clip(&a), clip(&b)), case.clone());
+                            return false;
+                        }
+                        ctx.report.count("checked:to_json");
+                    }
+                }
+                Ok(Err(e)) => {
+                    ctx.report.violation("oracle", "C09:doc-error", format!("{stage}: Searcher::doc(seg {ord}, doc {d}) failed: {e}"), case.clone());
+                    return false;
+                }
+                Err(_) => {
+                    ctx.report.violation("oracle", "C09:doc-panic", format!("{stage}: Searcher::doc(seg {ord}, doc {d}) panicked"), case.clone());
+                    return false;
+                }
+            }
+        }
+        ctx.report.count_n("checked:searcher-doc", order.len().min(400) as u64);
+        // 2. StoreReader::get with explicit cache sizes and access orders
+        let cache = *rng.pick(&[0usize, 1, 2, 7, 100]);
+        let sr = match seg.get_store_reader(cache) {
+            Ok(r) => r,
+            Err(e) => {
+                ctx.report.violation("oracle", "C09:store-open-error", format!("{stage}: get_store_reader({cache}) failed: {e}"), case.clone());
+                return false;
+            }
+        };
+        let mut acc: Vec<u32> = match rng.below(3) {
+            0 => (0..max_doc).collect(),
+            1 => (0..max_doc).rev().collect(),
+            _ => (0..max_doc.min(300) * 2).map(|_| rng.below(max_doc as u64) as u32).collect(),
+        };
+        acc.truncate(500);
+        let cps = tantivy::verif::c09_block_checkpoints(&sr);
+        let mut keys = vec![];
+        for &d in &acc {
+            let id = id_of[d as usize];
+            keys.push(cps.iter().find(|c| c.0 <= d && d < c.1).map(|c| c.2).unwrap_or(0));
+            match catch_unwind(AssertUnwindSafe(|| sr.get::<TantivyDocument>(d))) {
+                Ok(Ok(doc)) if id < exp.canon.len() && canon_doc(&doc) == exp.canon[id] => {}
+                Ok(Ok(_)) | Ok(Err(_)) => {
+                    ctx.report.violation("oracle", "C09:store-get-differs", format!("{stage}: StoreReader::get({d}) (cache {cache}) does not return the stored fields of document id {id}"), case.clone());
+                    return false;
+                }
+                Err(_) => {
+                    ctx.report.violation("oracle", "C09:doc-panic", format!("{stage}: StoreReader::get({d}) panicked"), case.clone());
+                    return false;
+                }
+            }
+        }
+        let (h, m, e) = tantivy::verif::c09_cache_stats(&sr);
+        let ms = ctx.model.ask(&format!("C09 cachesim {cache} {}", nat_list(&keys)));
+        if ms != format!("{h}/{m}/{e}") {
+            ctx.report.violation("model", "C09:cache-stats", format!("{stage}: CacheStats real {h}/{m}/{e} model {ms} (capacity {cache})"), case.clone());
+        }
+        ctx.report.count(&format!("cache-capacity:{cache}"));
+        ctx.report.count(&format!("index-blocks:{}", bucket(cps.len())));
+        // 3. iter: exactly the live documents, in doc-id order
+        let it: Vec<Result<TantivyDocument, String>> = match catch_unwind(AssertUnwindSafe(|| sr.iter::<TantivyDocument>(seg.alive_bitset()).map(|r| r.map_err(|e| e.to_string())).collect())) {
+            Ok(v) => v,
+            Err(_) => {
+                ctx.report.violation("oracle", "C09:iter-panic", format!("{stage}: StoreReader::iter panicked"), case.clone());
+                return false;
+            }
+        };
+        let want: Vec<&String> = (0..max_doc).filter(|d| alive[*d as usize]).map(|d| &exp.canon[id_of[d as usize]]).collect();
+        let got: Vec<String> = it.iter().map(|r| r.as_ref().map(canon_doc).unwrap_or_else(|e| format!("err:{e}"))).collect();
+        if got.len() != want.len() || got.iter().zip(want.iter()).any(|(a, b)| a != *b) {
+            ctx.report.violation("oracle", "C09:iter-differs", format!("{stage}: StoreReader::iter yields {} documents, expected the {} live documents in doc-id order", got.len(), want.len()), case.clone());
+            return false;
+        }
+        ctx.report.count("checked:iter");
+        // 4. raw bytes: iter_raw = get_document_bytes, decoded by the Lean codec
+        let raw = tantivy::verif::c09_iter_raw(&sr, seg.alive_bitset());
+        let live: Vec<u32> = (0..max_doc).filter(|d| alive[*d as usize]).collect();
+        for (k, r) in raw.iter().enumerate() {
+            let Ok(b) = r else {
+                ctx.report.violation("oracle", "C09:iter-differs", format!("{stage}: iter_raw item {k} is an error"), case.clone());
+                return false;
+            };
+            if k < live.len() {
+                let d = live[k];
+                if real_get_bytes(&sr, d).ok().as_ref() != Some(b) {
+                    ctx.report.violation("oracle", "C09:iter-differs", format!("{stage}: iter_raw item {k} differs from get_document_bytes({d})"), case.clone());
+                    return false;
+                }
+                if b.len() <= 20_000 && (k < 25 || rng.chance(1, 10)) {
+                    let m = ctx.model.ask(&format!("C09 docdec {}", hex(b)));
+                    if m != exp.canon[id_of[d as usize]] {
+                        ctx.report.violation("model", "C09:model-decode-real-bytes", format!("{stage}: Lean codec on the stored bytes of doc {d}: {} expected {}", clip(&m), clip(&exp.canon[id_of[d as usize]])), case.clone());
+                        return false;
+                    }
+                    ctx.report.count("checked:model-decodes-stored-bytes");
+                }
+            }
+        }
+    }
+    for (id, s) in seen.iter().enumerate() {
+        if !*s && !deleted[id] {
+            ctx.report.violation("oracle", "C09:live-set", format!("{stage}: document id {id} is missing"), case.clone());
+            return false;
+        }
+    }
+    true
+}
+
+/// store file bytes (without the directory footer) and alive bits of every searchable segment
+fn segment_stores(index: &Index) -> Option<Vec<(tantivy::index::SegmentId, Vec<u8>, String)>> {
+    let reader = index.reader().ok()?;
+    let searcher = reader.searcher();
+    let mut out = vec![];
+    for seg in index.searchable_segments().ok()? {
+        let bytes = seg.open_read(SegmentComponent::Store).ok()?.read_bytes().ok()?.as_slice().to_vec();
+        let sr = searcher.segment_readers().iter().find(|r| r.segment_id() == seg.id())?;
+        let bits: String = if sr.has_deletes() {
+            (0..sr.max_doc()).map(|d| if sr.alive_bitset().map(|b| b.is_alive(d)).unwrap_or(true) { '1' } else { '0' }).collect()
+        } else {
+            "all".into()
+        };
+        out.push((seg.id(), bytes, bits));
+    }
+    Some(out)
+}
+
+fn case_index(ctx: &mut Ctx, sch: &Sch, k: Consts, sub: u64) {
+    let mut rng = Rng::new(sub);
+    let case = json!({"kind": "index", "sub": sub.to_string()});
+    let st = Settings { comp: pick_compressor(&mut rng), bs: pick_blocksize(&mut rng, k.default_bs), thread: rng.chance(1, 2) };
+    let sorted = match rng.below(8) {
+        0 => Some(tantivy::Order::Asc),
+        1 => Some(tantivy::Order::Desc),
+        _ => None,
+    };
+    let settings = IndexSettings {
+        docstore_compression: st.comp,
+        docstore_blocksize: st.bs,
+        docstore_compress_dedicated_thread: st.thread,
+        sort_by_field: sorted.map(|order| tantivy::IndexSortByField { field: "sk".to_string(), order }),
+        ..Default::default()
+    };
+    ctx.report.count(if sorted.is_some() { "index-sorted(remap+mapped-merge)" } else { "index-unsorted" });
+    ctx.report.count(&format!("index-compressor:{}", compressor_name(&st.comp)));
+    ctx.report.count(&format!("index-thread:{}", st.thread));
+    ctx.report.count(&format!("index-blocksize:{}", if st.bs <= 17 { "tiny" } else if st.bs < 16384 { "mid" } else { "default+" }));
+    let nseg = 1 + rng.usize_below(3);
+    let allow_huge = rng.chance(1, 12);
+    let per_seg: Vec<usize> = (0..nseg)
+        .map(|_| match rng.below(8) { 0 => 1, 1 => 2, 2 => 8, 3 => 9, 4 => 64 + rng.usize_below(3), 5 => 100 + rng.usize_below(60), _ => 3 + rng.usize_below(30) })
+        .collect();
+    let small_only = per_seg.iter().sum::<usize>() > 120;
+    let mut profiles: Vec<DocProfile> = vec![];
+    let res = catch_unwind(AssertUnwindSafe(|| -> tantivy::Result<(Index, Expect, Vec<Vec<usize>>)> {
+        let index = Index::create(RamDirectory::create(), sch.schema.clone(), settings)?;
+        let mut w: IndexWriter = index.writer_with_num_threads(1, 30_000_000)?;
+        w.set_merge_policy(Box::new(NoMergePolicy));
+        let mut exp = Expect { canon: vec![], docs: vec![] };
+        let mut seg_ids: Vec<Vec<usize>> = vec![];
+        for &n in &per_seg {
+            let mut ids = vec![];
+            for _ in 0..n {
+                let profile = if small_only { if rng.chance(1, 6) { DocProfile::Empty } else { DocProfile::Small } } else { pick_profile(&mut rng, allow_huge) };
+                let gd = gen_doc(&mut rng, sch, profile);
+                profiles.push(profile);
+                let id = exp.canon.len();
+                let mut doc = to_tantivy_doc(&gd.added);
+                doc.add_u64(sch.id, id as u64);
+                doc.add_u64(sch.sk, rng.below(50));
+                w.add_document(doc)?;
+                exp.canon.push(canon_fields(&gd.expected));
+                exp.docs.push(gd.expected);
+                ids.push(id);
+            }
+            w.commit()?;
+            seg_ids.push(ids);
+        }
+        drop(w);
+        Ok((index, exp, seg_ids))
+    }));
+    let (index, exp, seg_ids) = match res {
+        Ok(Ok(x)) => x,
+        Ok(Err(e)) => {
+            ctx.report.violation("oracle", "C09:indexing-error", format!("indexing failed: {e}"), case);
+            return;
+        }
+        Err(_) => {
+            ctx.report.violation("oracle", "C09:indexing-panic", "indexing panicked".into(), case);
+            return;
+        }
+    };
+    for p in &profiles {
+        ctx.report.count(&format!("index-doc-profile:{:?}", p));
+    }
+    let total = exp.canon.len();
+    let mut deleted = vec![false; total];
+    let nontrivial_docs = exp.canon.iter().filter(|c| c.contains("A[") || c.contains("O{") || c.contains(';')).count();
+    if !check_searcher(ctx, &mut rng, &index, sch, &exp, &deleted, "after commit", &case) {
+        return;
+    }
+    // deletes
+    let del_mode = rng.below(4);
+    let mut w: IndexWriter = match index.writer_with_num_threads(1, 30_000_000) {
+        Ok(w) => w,
+        Err(e) => {
+            ctx.report.violation("oracle", "C09:indexing-error", format!("second writer: {e}"), case);
+            return;
+        }
+    };
+    w.set_merge_policy(Box::new(NoMergePolicy));
+    if del_mode > 0 {
+        for (si, ids) in seg_ids.iter().enumerate() {
+            // mode 1: deletes in every segment; 2: only in the first; 3: first and last doc of a segment
+            let pick: Vec<usize> = match del_mode {
+                1 => ids.iter().cloned().filter(|_| rng.chance(1, 4)).collect(),
+                2 if si == 0 => ids.iter().cloned().filter(|_| rng.chance(1, 3)).collect(),
+                3 => vec![ids[0], *ids.last().unwrap()],
+                _ => vec![],
+            };
+            for id in pick {
+                if ids.len() > 1 || del_mode != 3 {
+                    w.delete_term(Term::from_field_u64(sch.id, id as u64));
+                    deleted[id] = true;
+                }
+            }
+        }
+        // never delete everything in a segment-less way that removes all docs of the index
+        if deleted.iter().all(|d| *d) {
+            deleted[0] = false;
+            // re-add is not possible; simply skip the delete stage for this case
+            let _ = w.rollback();
+            deleted = vec![false; total];
+        } else if let Err(e) = w.commit() {
+            ctx.report.violation("oracle", "C09:indexing-error", format!("commit of deletes failed: {e}"), case);
+            return;
+        }
+        if !check_searcher(ctx, &mut rng, &index, sch, &exp, &deleted, "after deletes", &case) {
+            return;
+        }
+    }
+    let ndel = deleted.iter().filter(|d| **d).count();
+    ctx.report.count(if ndel > 0 { "index-with-deletes" } else { "index-without-deletes" });
+    // merge all segments; the model merges the same store files (compressor none)
+    let before = segment_stores(&index);
+    let ids: Vec<tantivy::index::SegmentId> = match &before {
+        Some(b) if rng.chance(1, 2) => b.iter().map(|x| x.0).collect(),
+        _ => index.searchable_segment_ids().unwrap_or_default(),
+    };
+    let multi = ids.len() > 1;
+    let merged = catch_unwind(AssertUnwindSafe(|| w.merge(&ids).wait()));
+    match merged {
+        Ok(Ok(_)) => {}
+        Ok(Err(e)) => {
+            ctx.report.violation("oracle", "C09:merge-error", format!("merge failed: {e}"), case);
+            return;
+        }
+        Err(_) => {
+            ctx.report.violation("oracle", "C09:merge-panic", "merge panicked".into(), case);
+            return;
+        }
+    }
+    let _ = w.wait_merging_threads();
+    ctx.report.count(if multi { "merge:multi-segment" } else { "merge:single-segment" });
+    let mut stacked_expected = false;
+    if let Some(b) = &before {
+        for (_, bytes, bits) in b {
+            if let Ok(r) = open_real(bytes, 1) {
+                let nblocks = tantivy::verif::c09_block_checkpoints(&r).len();
+                if bits == "all" && nblocks >= k.min_stack_blocks {
+                    stacked_expected = true;
+                }
+            }
+        }
+    }
+    ctx.report.count(if stacked_expected { "merge:stacking-path" } else { "merge:copy-path-only" });
+    ctx.report.case(&format!("index|{sub}"), nontrivial_docs > 0 && (multi || ndel > 0 || total > 1));
+    if !check_searcher(ctx, &mut rng, &index, sch, &exp, &deleted, "after merge", &case) {
+        return;
+    }
+    if matches!(st.comp, Compressor::None) && sorted.is_none() {
+        if let (Some(b), Some(after)) = (&before, segment_stores(&index)) {
+            let size: usize = b.iter().map(|x| x.1.len()).sum();
+            if after.len() == 1 && size <= 250_000 {
+                // order of the sources = order of `ids`
+                let srcs: Vec<String> = ids.iter().filter_map(|id| b.iter().find(|x| x.0 == *id)).map(|x| format!("{}:{}", hex(&x.1), x.2)).collect();
+                let mm = ctx.model.ask(&format!("C09 merge {} {}", st.bs, srcs.join(";")));
+                if mm != hex(&after[0].1) {
+                    // the layout is not promised: what must agree is the content, in order
+                    let live_total = total - ndel;
+                    let probe: Vec<u32> = (0..live_total as u32 + 1).collect();
+                    let on_real = ctx.model.ask(&format!("C09 get {} {}", hex(&after[0].1), nat_list(&probe)));
+                    let on_model = if mm == "err" { "err".to_string() } else { ctx.model.ask(&format!("C09 get {mm} {}", nat_list(&probe))) };
+                    if on_real != on_model {
+                        ctx.report.violation("model", "C09:merged-store-content", format!("the model's merge of the {} source stores holds other documents than the real merged store (block size {}, deletes {ndel}, stacking {stacked_expected})", srcs.len(), st.bs), case.clone());
+                    } else {
+                        layout_differs(ctx, "merged-store", format!("{} bytes, deletes {ndel}, stacking {stacked_expected}", after[0].1.len()));
+                    }
+                }
+                ctx.report.count("merge:model-compared");
+            }
+        }
+    }
+    if ctx.report.samples.len() < 5 {
+        ctx.report.sample(json!({"kind":"index","segments":per_seg,"compressor":compressor_name(&st.comp),"block_size":st.bs,"dedicated_thread":st.thread,"deleted":ndel,"docs":total,"example_stored_view": clip(exp.canon.iter().find(|c| c.contains("O{")).unwrap_or(&exp.canon[0]))}));
+    }
+}
+
+/// a second merge round: merged segment + fresh segment, with deletes in the merged one
+fn case_index_two_rounds(ctx: &mut Ctx, sch: &Sch, sub: u64) {
+    let mut rng = Rng::new(sub);
+    let case = json!({"kind": "index2", "sub": sub.to_string()});
+    let comp = pick_compressor(&mut rng);
+    let bs = *rng.pick(&[0usize, 1, 16, 40, 120]);
+    let sorted = rng.chance(1, 3);
+    let settings = IndexSettings {
+        docstore_compression: comp,
+        docstore_blocksize: bs,
+        docstore_compress_dedicated_thread: rng.chance(1, 2),
+        sort_by_field: if sorted { Some(tantivy::IndexSortByField { field: "sk".to_string(), order: tantivy::Order::Desc }) } else { None },
+        ..Default::default()
+    };
+    ctx.report.count(if sorted { "index2-sorted" } else { "index2-unsorted" });
+    let res = catch_unwind(AssertUnwindSafe(|| -> tantivy::Result<()> {
+        let index = Index::create(RamDirectory::create(), sch.schema.clone(), settings)?;
+        let mut w: IndexWriter = index.writer_with_num_threads(1, 30_000_000)?;
+        w.set_merge_policy(Box::new(NoMergePolicy));
+        let mut exp = Expect { canon: vec![], docs: vec![] };
+        let mut deleted: Vec<bool> = vec![];
+        for round in 0..3 {
+            let n = *rng.pick(&[1usize, 5, 9, 20, 70]);
+            for _ in 0..n {
+                let prof = if rng.chance(1, 3) { DocProfile::ManyValues } else { DocProfile::Small };
+                let gd = gen_doc(&mut rng, sch, prof);
+                let id = exp.canon.len();
+                let mut doc = to_tantivy_doc(&gd.added);
+                doc.add_u64(sch.id, id as u64);
+                doc.add_u64(sch.sk, rng.below(50));
+                w.add_document(doc)?;
+                exp.canon.push(canon_fields(&gd.expected));
+                exp.docs.push(gd.expected);
+                deleted.push(false);
+            }
+            w.commit()?;
+            if rng.chance(1, 2) {
+                for id in 0..exp.canon.len() {
+                    if !deleted[id] && rng.chance(1, 6) && deleted.iter().filter(|d| !**d).count() > 1 {
+                        w.delete_term(Term::from_field_u64(sch.id, id as u64));
+                        deleted[id] = true;
+                    }
+                }
+                w.commit()?;
+            }
+            let ids = index.searchable_segment_ids()?;
+            w.merge(&ids).wait()?;
+            if !check_searcher(ctx, &mut rng, &index, sch, &exp, &deleted, &format!("round {round} after merge"), &case) {
+                return Ok(());
+            }
+        }
+        ctx.report.case(&format!("index2|{sub}"), true);
+        ctx.report.count("index-two-rounds");
+        Ok(())
+    }));
+    match res {
+        Ok(Ok(())) => {}
+        Ok(Err(e)) => ctx.report.violation("oracle", "C09:indexing-error", format!("two-round case failed: {e}"), case),
+        Err(_) => ctx.report.violation("oracle", "C09:indexing-panic", "two-round case panicked".into(), case),
+    }
+}
+
+// ------------------------------------------------------------------------------------------
 
 pub fn run(ctx: &mut Ctx) {
-    ctx.report.notes.push("C09: harness not built yet".into());
+    ctx.report.rule = "cases = codec documents, raw stores (StoreWriter/StoreReader), stacked stores and whole indexes \
+        (segments × deletes × merge); non-trivial: a codec document with nesting or ≥3 stored values, a store with ≥2 blocks, \
+        an index with nested/multi-valued documents and (several segments or deletes)".into();
+    ctx.report.correspondence_obligations = vec![
+        "VInt bytes: real = model, both directions".into(),
+        "Lean codec decodes the real serializer's bytes to the stored view".into(),
+        "Lean-encoded document bytes = real bytes, and the real deserializer reads them".into(),
+        "store file (compressor none): model reads the real file, real reads the model's (byte identity recorded as layout note)".into(),
+        "model reader (skip-index seek, block decode) on real store files = documents".into(),
+        "real StoreReader on model-written files = documents".into(),
+        "checkpoints decoded by the model = StoreReader::block_checkpoints".into(),
+        "CacheStats hits/misses/entries = model LRU".into(),
+        "merged store file (compressor none): same documents in the same order as model mergeStores of the source files".into(),
+        "skip index bytes of real files (any compressor) = model SkipIndexBuilder; model seek on them = containing checkpoint".into(),
+        "model iterRaw on real files with deletes = live documents".into(),
+        "version-1 doc store: model deserializeDocV 1 = what the real reader returns before a merge".into(),
+    ];
+    let sch = build_schema();
+    let k = read_consts(ctx);
+    if let Some(case) = ctx.replay.clone() {
+        let sub: u64 = case["sub"].as_str().and_then(|s| s.parse().ok()).unwrap_or(0);
+        match case["kind"].as_str().unwrap_or("") {
+            "codec" => case_codec(ctx, &sch, sub),
+            "store" => case_store(ctx, k, sub),
+            "stack" => case_stack(ctx, sub),
+            "index" => case_index(ctx, &sch, k, sub),
+            "index2" => case_index_two_rounds(ctx, &sch, sub),
+            "vint" => case_vint(ctx),
+            "deep" => case_deep(ctx, &sch, sub as usize),
+            "v1" => case_v1_store(ctx, &sch, sub),
+            k => ctx.report.notes.push(format!("unknown replay kind {k}")),
+        }
+        return;
+    }
+    case_vint(ctx);
+    probe_empty_store(ctx);
+    for depth in [1usize, 2, 64, 127, 128, 300] {
+        case_deep(ctx, &sch, depth);
+    }
+    if ctx.thorough() {
+        for depth in [700usize, 1500] {
+            case_deep(ctx, &sch, depth);
+        }
+    }
+    for _ in 0..ctx.budget(1000, 15000) {
+        let sub = ctx.rng.next_u64();
+        case_codec(ctx, &sch, sub);
+    }
+    for _ in 0..ctx.budget(320, 6000) {
+        let sub = ctx.rng.next_u64();
+        case_store(ctx, k, sub);
+    }
+    for _ in 0..ctx.budget(80, 1500) {
+        let sub = ctx.rng.next_u64();
+        case_stack(ctx, sub);
+    }
+    for _ in 0..ctx.budget(110, 2500) {
+        let sub = ctx.rng.next_u64();
+        case_index(ctx, &sch, k, sub);
+    }
+    for _ in 0..ctx.budget(20, 400) {
+        let sub = ctx.rng.next_u64();
+        case_index_two_rounds(ctx, &sch, sub);
+    }
+    for _ in 0..ctx.budget(6, 40) {
+        let sub = ctx.rng.next_u64();
+        case_v1_store(ctx, &sch, sub);
+    }
 }
